@@ -32,6 +32,7 @@ type Gen struct {
 	out       *xvlib.Out
 	confirmed map[int]bool // blocks in main's ledger
 	nontriv   bool
+	stop      bool // a race of this history already broke a property: the node is in a state no history reaches, stop here
 	canon     []string
 }
 
@@ -39,7 +40,7 @@ func (g *Gen) emit(line string) string {
 	ans := g.emit1(line)
 	// after every mutating op the full observation is compared with the model
 	switch strings.Fields(line)[0] {
-	case "dotx", "play", "playminer", "walk", "walktrace", "reopen", "race2", "balrace", "selrace", "raced":
+	case "dotx", "play", "playminer", "walk", "walktrace", "reopen", "race2", "race3", "flood", "balrace", "selrace", "raced":
 		g.emit1("obs")
 	case "mtruncate":
 		g.emit1("obs")
@@ -200,7 +201,12 @@ func (g *Gen) genXfer(s *Spec, h int64, variant string) (string, bool) {
 		t.Outs = append(t.Outs, OutInfo{Addr: from, Amt: rest})
 	}
 	if g.r.Chance(1, 6) {
-		t.Outs = append(t.Outs, OutInfo{Addr: us[g.r.Intn(len(us))], Amt: big.NewInt(0)}) // zero-valued output
+		zo := OutInfo{Addr: us[g.r.Intn(len(us))], Amt: big.NewInt(0)} // zero-valued output
+		if g.r.Chance(1, 2) {
+			// the zero amount spelled non-minimally (clients that do not go through big.Int.Bytes())
+			zo.RawHex = []string{"00", "0000", "00"}[g.r.Intn(3)]
+		}
+		t.Outs = append(t.Outs, zo)
 	}
 	if w.Fee && g.r.Chance(1, 2) && len(t.Outs) > 0 && t.Outs[0].Amt.Cmp(big.NewInt(3)) > 0 {
 		fee := big.NewInt(int64(1 + g.r.Intn(3)))
@@ -233,6 +239,13 @@ func (g *Gen) genXfer(s *Spec, h int64, variant string) (string, bool) {
 		t.Outs = []OutInfo{{Addr: from, Amt: new(big.Int).Lsh(big.NewInt(1), 70)}}
 		for _, r := range t.Ins[1:] {
 			t.Outs = append(t.Outs, OutInfo{Addr: from, Amt: r.Amt})
+		}
+	}
+	if len(t.Outs) > 0 && g.r.Chance(1, 8) {
+		// a non-zero amount with leading zero bytes
+		i := g.r.Intn(len(t.Outs))
+		if t.Outs[i].Amt.Sign() > 0 && t.Outs[i].RawHex == "" {
+			t.Outs[i].RawHex = []string{"00", "0000"}[g.r.Intn(2)] + fmt.Sprintf("%x", t.Outs[i].Amt.Bytes())
 		}
 	}
 	return t.line("xtx", ""), true
@@ -328,7 +341,12 @@ func (g *Gen) scenario(p *Profile) {
 	g.emit(fmt.Sprintf("reset fee=%d w=%d alloc=1000,500,300", f, win))
 	g.confirmed = map[int]bool{0: true}
 	w := e.w
-	for step := 0; step < p.Steps; step++ {
+	g.stop = false
+	for step := 0; step < p.Steps && !g.stop; step++ {
+		if w.Main == nil || w.Main.S == nil {
+			g.stop = true // a reopen inside an op failed: the node is gone
+			break
+		}
 		act := g.pick(p.W)
 		switch act {
 		case "xfer":
@@ -408,6 +426,10 @@ func (g *Gen) scenario(p *Profile) {
 			if a != b {
 				g.emit(fmt.Sprintf("race2 %d %d", a, b))
 			}
+		case "race3":
+			g.race3() // race3.go
+		case "flood":
+			g.flood()
 		case "walkrace":
 			g.walkRace() // walkrace.go
 		case "selrace":
@@ -680,7 +702,13 @@ func (g *Gen) scenario(p *Profile) {
 						g.confirmed[bi] = true
 						g.emit(fmt.Sprintf("playminer %d fault=1", bi))
 						g.emit("cmpcopy")
-						g.emit(fmt.Sprintf("playminer %d", bi))
+						// the process keeps running: the block is in the ledger, the state machine is not on it - the miner's
+						// next round synchronises by walking to the ledger tip; or the play is tried again
+						if g.r.Chance(1, 2) {
+							g.emit(fmt.Sprintf("walk %d", bi))
+						} else {
+							g.emit(fmt.Sprintf("playminer %d", bi))
+						}
 					}
 				} else if st == e.ledgerTip() {
 					bi := len(w.Blocks)
@@ -697,7 +725,9 @@ func (g *Gen) scenario(p *Profile) {
 		case "sync":
 			g.syncState()
 		case "reopen":
-			g.emit("reopen")
+			if g.emit("reopen") == "fail" {
+				g.stop = true // the node is gone
+			}
 		case "cmpcopy":
 			g.emit("cmpcopy")
 		case "replica":
@@ -709,6 +739,9 @@ func (g *Gen) scenario(p *Profile) {
 		}
 	}
 	for _, c := range p.EndChecks {
+		if g.stop {
+			break
+		}
 		if c == "sync" {
 			g.syncState()
 			continue
